@@ -1,6 +1,7 @@
 mod alloc;
 mod c01;
 mod c04;
+mod c11;
 mod faults;
 mod io;
 mod choices;
@@ -47,6 +48,7 @@ fn main() {
                 outcomes_out: arg_val(&args, "--outcomes-out"),
                 samples: arg_val(&args, "--samples").and_then(|s| s.parse().ok()).unwrap_or(0),
                 watchdog_s: arg_val(&args, "--watchdog").and_then(|s| s.parse().ok()).unwrap_or(20),
+                hash_sample: arg_val(&args, "--hash-sample").and_then(|s| s.parse().ok()).unwrap_or(1).max(1),
             };
             let j = runner::worker(&a);
             println!("{}", j.to_string());
@@ -62,7 +64,7 @@ fn main() {
             let lifted: Vec<String> = j.get("lift").and_then(J::as_arr).map(|a| a.iter().filter_map(|x| x.as_str().map(str::to_string)).collect()).unwrap_or_default();
             runner::start_watchdog(arg_val(&args, "--watchdog").and_then(|s| s.parse().ok()).unwrap_or(30));
             alloc::CURRENT_RUN.store(0, std::sync::atomic::Ordering::Relaxed);
-            runner::WATCH_STARTED_MS.store(1, std::sync::atomic::Ordering::Relaxed);
+            runner::arm_watchdog();
             let from_seed = matches!(j.get("from_seed"), Some(J::Bool(true)));
             let out = if from_seed {
                 let seed = j.get("seed").and_then(J::as_u64).unwrap_or(1);
@@ -92,7 +94,7 @@ fn main() {
             let sig = j.get("signature").and_then(J::as_str).expect("signature").to_string();
             let lifted: Vec<String> = j.get("lift").and_then(J::as_arr).map(|a| a.iter().filter_map(|x| x.as_str().map(str::to_string)).collect()).unwrap_or_default();
             runner::start_watchdog(300);
-            runner::WATCH_STARTED_MS.store(1, std::sync::atomic::Ordering::Relaxed);
+            runner::arm_watchdog();
             let budget = arg_val(&args, "--budget").and_then(|s| s.parse().ok()).unwrap_or(3000);
             let before: usize = lanes.iter().map(Vec::len).sum();
             let (min, spent) = runner::minimize(&prop, tier, lanes, &sig, &lifted, budget);
